@@ -1201,3 +1201,64 @@ def run(ctx) -> None:  # noqa: F811
                   "centring-forbidden reflections do not vanish", key_detail="phase")
 
     _deferred.run(ctx, new, _inner_run_c27c)
+
+
+# ---- added after the seeded change C27-r6seed2: the contribution of an atom does not depend on the atoms before it
+_inner_run_c27d = run
+
+
+def run(ctx) -> None:  # noqa: F811
+    from ..cfg import DataFlow as _DF
+    from ..rules import deferred as _deferred, peratom as _peratom
+
+    ctx.rule("R-PERATOM", "in every loop over the atoms / species of calculate_scattering_factors and "
+             "calculate_structure_factors that fills or sums the per-atom factors (its body updates an array, list or "
+             "number that is initialised before the loop and reaches the result), every quantity of the contribution "
+             "is (re)defined in the same iteration on every path that reaches its use: no definition made in a "
+             "previous iteration reaches a read through the back edge (loop-carried reaching definition), except into "
+             "the update of the accumulator itself; values never assigned inside the loop are loop invariant.  A "
+             "quantity rebound on some paths only (Debye-Waller factor, occupancy, scattering-factor lookup) keeps the "
+             "value of the preceding atom otherwise: symmetry-equivalent atoms get different factors, the centring "
+             "translations no longer cancel the forbidden reflections and F depends on the order of the atoms")
+
+    def new():
+        repo = ctx.repo
+        found = 0
+        for name in ("calculate_scattering_factors", "calculate_structure_factors"):
+            f = repo.function(DYN, name)
+            ctx.require("atoms" in f.params, f"{f.qualname}: parameter `atoms` not found")
+            df = _DF(f.node)
+            loops = _peratom.atom_loops(f, df, "atoms")
+            for k, al in enumerate(loops):
+                construct = f"{f.qualname}:per-atom loop" + (f" {k + 1}" if len(loops) > 1 else "")
+                if not al.derived:
+                    ctx.info("R-PERATOM", construct, f.loc(al.loop), "the loop does not run over the atoms "
+                             f"(`{norm_text(al.loop.iter if isinstance(al.loop, ast.For) else al.loop.test)[:50]}`)")
+                    continue
+                found += 1
+                v = _peratom.examine(f, df, al)
+                if v.stale:
+                    parts = []
+                    for var, (dst, ust, guards) in v.stale.items():
+                        when = "only after that read" if guards == ["unconditionally"] else \
+                            "only when " + " / ".join(guards)
+                        parts.append(f"`{var}` is read by `{_peratom._text(ust)[:60]}` on a path on which it was not "
+                                     f"assigned in the same iteration: inside the loop it is assigned {when} "
+                                     f"(`{norm_text(dst)[:60]}`)")
+                    ctx.violation("R-PERATOM", construct, f.loc(next(iter(v.stale.values()))[0]),
+                                  "; ".join(parts) + ": the value left by a preceding atom (in the first iteration the "
+                                  "value from before the loop) enters the factor of this atom, so the result depends on "
+                                  "the order of the atoms, symmetry-equivalent atoms get different factors and "
+                                  "centring-forbidden reflections do not cancel", key_detail="carried")
+                    continue
+                if v.undecided:
+                    raise AnalysisError(f"{f.qualname}: per-atom loop: " + "; ".join(v.undecided))
+                ctx.ok("R-PERATOM", construct, f.loc(al.loop),
+                       f"accumulates into {', '.join(al.accumulators)}; redefined in every iteration before every read: "
+                       f"{', '.join(x for x in v.per_iteration if x not in al.accumulators) or 'nothing'}; "
+                       + (f"memo tables keyed per iteration: {', '.join(v.tables)}; " if v.tables else "") +
+                       "nothing else is carried across iterations")
+        ctx.require(found >= 1, "calculate_scattering_factors / calculate_structure_factors: no loop over the atoms that "
+                    "fills the per-atom factors was found (a vectorised formulation is not read by R-PERATOM)")
+
+    _deferred.run(ctx, new, _inner_run_c27d)
